@@ -1,2 +1,165 @@
-From Verif Require Import Model.Chain.
-Example C09_placeholder : 1 = 1. Proof. reflexivity. Qed.
+(* Properties/C09.v — Evaluation is deterministic (with the key-order clause of C02).
+   Statements only, each closed by [exact]; the proofs live in Proofs/EvalTotalPerm.v.
+
+   Scope.  The model is a FUNCTION of (fuel, world, name, definition): "same input, same output" is the
+   reflexivity of equality (C09_run_deterministic, stated for completeness, not sold as a result).  The
+   nondeterminism C09 is about — Go's randomised map iteration order, state left over from earlier
+   evaluations, fresh processes — is a runtime phenomenon and is exercised by the correspondence
+   (Corr/C09.v: repeated and fresh-process runs, byte-compared).
+   What a theorem about the model CAN say, and what makes the Go implementation's sorting sites
+   (evaluateObject, value.keys) sufficient: NOTHING DEPENDS ON THE ORDER IN WHICH KEYS ARE WRITTEN OR
+   ITERATED.  Objects are evaluated through [declared] + [sort_entries], expression identities are key-based
+   paths, and lookups take the first occurrence; so two definitions that differ only in the order of their
+   (unique) keys — at every nesting level, in the root environment and in every imported one — produce equal
+   values, equal final states (memo table, diagnostics count, collaborator-call log) and equal observations. *)
+From Verif Require Import Proofs.EvalTotal.
+From Coq Require Import Sorting.Permutation.
+
+(* [expr_perm x x']: x' is x with the entries of some objects reordered, recursively.  An object may be
+   reordered only if its keys are unique ([reorder]: identical lists, or a permutation of a duplicate-free
+   one): with duplicate keys the first occurrence wins, which IS order dependent. *)
+Theorem C09_expr_perm_refl : forall x, expr_perm x x.
+Proof. exact expr_perm_refl. Qed.
+
+Theorem C09_expr_perm_reorder : forall l l',
+  NoDup (map fst l) -> Permutation l l' -> expr_perm (EObj l) (EObj l').
+Proof. exact expr_perm_obj_reorder. Qed.
+
+(* what evaluateObject iterates over — first occurrences, key-sorted — is the same list for every order of
+   writing the entries, up to the source positions (which the evaluation never uses); and no duplicate is
+   reported *)
+Theorem C09_declared_perm : forall (l l' : list (string * expr)),
+  NoDup (map fst l) -> Permutation l l' ->
+  strip (sort_entries (fst (declared l 0%nat []))) = strip (sort_entries (fst (declared l' 0%nat []))) /\
+  snd (declared l 0%nat []) = 0 /\ snd (declared l' 0%nat []) = 0.
+Proof. exact (@declared_perm expr). Qed.
+
+(* a reference finds the same definition (first occurrence) whatever the order *)
+Theorem C09_find_entry_perm : forall k (l l' : list (string * expr)) i j,
+  NoDup (map fst l) -> Permutation l l' ->
+  option_map snd (find_entry k l i) = option_map snd (find_entry k l' j).
+Proof. exact (@find_entry_perm expr). Qed.
+
+(* evaluating an object literal from the same state with the same identity: same value, same final state *)
+Theorem C09_eval_repr_obj_perm : forall W f E l l' xbase id s,
+  NoDup (map fst l) -> Permutation l l' ->
+  eval_repr W f E (EObj l) xbase id s = eval_repr W f E (EObj l') xbase id s.
+Proof. exact eval_repr_obj_perm. Qed.
+
+(* whole expressions, objects reordered at every nesting level, in contexts whose declared root values are
+   reordered too; and the reference walk *)
+Theorem C09_eval_expr_perm : forall W f E E' x x' xsec xbase id s,
+  ectx_perm E E' -> expr_perm x x' ->
+  eval_expr W f E x xsec xbase id s = eval_expr W f E' x' xsec xbase id s.
+Proof. exact eval_expr_perm. Qed.
+
+Theorem C09_walk_perm : forall W f E E' rx rx' rsec rbase rid accs s,
+  ectx_perm E E' -> expr_perm rx rx' ->
+  walk W f E rx rsec rbase rid accs s = walk W f E' rx' rsec rbase rid accs s.
+Proof. exact walk_perm. Qed.
+
+(* environments: [envdef_perm d d'] = same imports (their order is semantically significant and is kept),
+   values related by expr_perm; [world_perm W W'] = same collaborators, loadable definitions related *)
+Theorem C09_eval_env_perm : forall W W' f root name d d' s,
+  world_perm W W' -> envdef_perm d d' ->
+  eval_env W f root name d s = eval_env W' f root name d' s.
+Proof. exact eval_env_perm. Qed.
+
+(* THE THEOREM: key order is irrelevant for the observation — value, "has errors", call log, fuel flag *)
+Theorem C09_key_order_irrelevant : forall f W W' name d d',
+  world_perm W W' -> envdef_perm d d' -> run f W name d = run f W' name d'.
+Proof. exact key_order_irrelevant. Qed.
+
+(* the top-level [values] of the root environment *)
+Theorem C09_values_order_irrelevant : forall f W name imports vals vals',
+  NoDup (map fst vals) -> Permutation vals vals' ->
+  run f W name {| ed_imports := imports; ed_values := vals |}
+  = run f W name {| ed_imports := imports; ed_values := vals' |}.
+Proof. exact values_order_irrelevant. Qed.
+
+(* stated for completeness: [run] is a function *)
+Theorem C09_run_deterministic : forall f W name d o1 o2,
+  run f W name d = o1 -> run f W name d = o2 -> o1 = o2.
+Proof. exact run_deterministic. Qed.
+
+(* ================= Examples ================= *)
+Definition ex_world : world :=
+  {| w_envs := [("base", LoadOk {| ed_imports := []; ed_values := [("p", ENum "7"); ("q", EStr "x")] |})];
+     w_provs := []; w_ctx := []; w_check := false; w_show := false; w_fault := None;
+     w_decrypt := fun _ _ => None |}.
+Definition ex_world' : world :=
+  {| w_envs := [("base", LoadOk {| ed_imports := []; ed_values := [("q", EStr "x"); ("p", ENum "7")] |})];
+     w_provs := []; w_ctx := []; w_check := false; w_show := false; w_fault := None;
+     w_decrypt := fun _ _ => None |}.
+
+(* a: 1, b: {y: ${a}, x: "s${p}", e: ${nope}}   versus   b: {e: ..., x: ..., y: ...}, a: 1
+   (two levels reordered, a reference crossing them, an erroneous member, an import reordered as well) *)
+Definition ex_ab : envdef :=
+  {| ed_imports := [("base", true)];
+     ed_values := [("a", ENum "1");
+                   ("b", EObj [("y", ESym [AName "a"]);
+                               ("x", EInterp [("s", Some [AName "p"])]);
+                               ("e", ESym [AName "nope"])])] |}.
+Definition ex_ba : envdef :=
+  {| ed_imports := [("base", true)];
+     ed_values := [("b", EObj [("e", ESym [AName "nope"]);
+                               ("x", EInterp [("s", Some [AName "p"])]);
+                               ("y", ESym [AName "a"])]);
+                   ("a", ENum "1")] |}.
+
+Lemma ex_nodup2 (a b : string) : a <> b -> NoDup [a; b].
+Proof. intro H. constructor; [intros [E|[]]; congruence|]. constructor; [intros []|constructor]. Qed.
+
+Example C09_ex_defs_related : envdef_perm ex_ab ex_ba.
+Proof.
+  split; [reflexivity|].
+  apply EP_obj with (m := [("b", EObj [("y", ESym [AName "a"]);
+                                       ("x", EInterp [("s", Some [AName "p"])]);
+                                       ("e", ESym [AName "nope"])]); ("a", ENum "1")]).
+  - right. split; [apply ex_nodup2; discriminate|apply perm_swap].
+  - constructor; [split; [reflexivity|]|constructor; [split; [reflexivity|constructor]|constructor]].
+    cbn [snd]. apply C09_expr_perm_reorder.
+    + constructor; [intros [E|[E|[]]]; discriminate|]. apply ex_nodup2. discriminate.
+    + (* [y; x; e] ~ [e; x; y] *)
+      eapply perm_trans; [apply perm_swap|]. eapply perm_trans; [apply perm_skip, perm_swap|].
+      eapply perm_trans; [apply perm_swap|]. apply Permutation_refl.
+Qed.
+
+Example C09_ex_worlds_related : world_perm ex_world ex_world'.
+Proof.
+  constructor; try reflexivity.
+  constructor; [|constructor]. split; [reflexivity|]. constructor. split; [reflexivity|].
+  apply C09_expr_perm_reorder; [apply ex_nodup2; discriminate|apply perm_swap].
+Qed.
+
+(* the theorem applied: equal observations for every fuel ... *)
+Example C09_ex_same_observation : forall f, run f ex_world "e" ex_ab = run f ex_world' "e" ex_ba.
+Proof.
+  intro f. apply C09_key_order_irrelevant; [exact C09_ex_worlds_related|exact C09_ex_defs_related].
+Qed.
+
+(* ... and the observation is not trivial: merged import, resolved references, one unknown, one diagnostic *)
+Example C09_ex_value :
+  run 60 ex_world "e" ex_ab
+  = {| ob_value :=
+         Some (XObj false false
+                 [("a", XScalar false false (SNum "1"));
+                  ("b", XObj false false [("e", XScalar false true SNull);
+                                          ("x", XScalar false false (SStr "s7"));
+                                          ("y", XScalar false false (SNum "1"))]);
+                  ("p", XScalar false false (SNum "7"));
+                  ("q", XScalar false false (SStr "x"))]);
+       ob_errors := true; ob_log := [EvLoad "base"]; ob_oof := false |}.
+Proof. vm_compute. reflexivity. Qed.
+
+(* a two-key object in both orders, directly *)
+Example C09_ex_two_keys :
+  run 30 ex_world "e" {| ed_imports := []; ed_values := [("k1", ENum "1"); ("k2", EBool true)] |}
+  = run 30 ex_world "e" {| ed_imports := []; ed_values := [("k2", EBool true); ("k1", ENum "1")] |}.
+Proof. apply C09_values_order_irrelevant; [apply ex_nodup2; discriminate|apply perm_swap]. Qed.
+
+(* why uniqueness is required: with a duplicated key the first occurrence wins, so order matters *)
+Example C09_ex_duplicates_are_order_dependent :
+  ob_value (run 30 ex_world "e" {| ed_imports := []; ed_values := [("k", ENum "1"); ("k", ENum "2")] |})
+  <> ob_value (run 30 ex_world "e" {| ed_imports := []; ed_values := [("k", ENum "2"); ("k", ENum "1")] |}).
+Proof. vm_compute. discriminate. Qed.
